@@ -92,7 +92,7 @@ type sim struct {
 	nblk  int           // callbacks currently blocked
 	obs   []*obs
 	calls []*call
-	pend  *call
+	pend  []*call // client calls not answered yet, in launch order (several only if all are updates)
 
 	// model
 	states    []rel.Value // installed states, states[0] = {}
@@ -102,6 +102,8 @@ type sim struct {
 	faults    bool
 
 	lin []porcupine.Operation
+
+	simSeconds int
 }
 
 type regIn struct {
@@ -225,7 +227,7 @@ func (s *sim) cur() rel.Value { return s.states[len(s.states)-1] }
 func (s *sim) launch(cl *call, f func() error) {
 	cl.inv = s.tick()
 	s.calls = append(s.calls, cl)
-	s.pend = cl
+	s.pend = append(s.pend, cl)
 	go func() {
 		err := f()
 		ret := s.tick()
@@ -241,14 +243,27 @@ func (s *sim) isDone(cl *call) bool {
 	return cl.done
 }
 
-// settle waits for quiescence and advances the model for a completed call.
+// settle waits for quiescence and advances the model for the calls that were answered.
 func (s *sim) settle() {
 	synctest.Wait()
-	cl := s.pend
-	if cl == nil || !s.isDone(cl) {
-		return
+	var done, rest []*call
+	for _, cl := range s.pend {
+		if s.isDone(cl) {
+			done = append(done, cl)
+		} else {
+			rest = append(rest, cl)
+		}
 	}
-	s.pend = nil
+	s.pend = rest
+	// Several calls answered in one quiescence window are all updates queued on one channel: the engine
+	// took them first-in first-out, i.e. in launch order. (The return stamps the client goroutines take
+	// afterwards race with each other and are not used for ordering.)
+	for _, cl := range done {
+		s.apply(cl)
+	}
+}
+
+func (s *sim) apply(cl *call) {
 	switch cl.kind {
 	case "update":
 		v, merr := s.modelEval(cl.expr, s.cur())
@@ -331,8 +346,8 @@ func (s *sim) wedged(where string) {
 		cause = "no-observer-failure"
 	}
 	desc := "none"
-	if s.pend != nil {
-		desc = s.pend.desc
+	if len(s.pend) > 0 {
+		desc = s.pend[0].desc
 	}
 	s.c.Violate("progress", "C17/wedge/"+cause, "%s: call `%s` is not answered although no observer callback is blocked (engine wedged; last observer event in the model: %s)", where, desc, cause)
 }
@@ -346,14 +361,33 @@ func (s *sim) release() bool {
 	return true
 }
 
-var updateKinds = []string{"(v: %d, x: %d)", "(v: %d)", "$ +> (v: %d)", "$ +> (v: %d, x: %d)", "$.zzz", "(v: %d, w: $.zzz)", "(v: %d, x: %d)", "$", "same"}
+var updateKinds = []string{"$ +> (v: %d, k%d: %d)", "(v: %d, x: %d)", "(v: %d)", "$ +> (v: %d)", "$ +> (v: %d, x: %d)", "$.zzz", "(v: %d, w: $.zzz)", "(v: %d, x: %d)", "$", "same"}
 var observeKinds = []string{"$", "$.v", "$.x", "42", "$.zzz", "($.v) + 1000", "$"}
 
 func (s *sim) step(i int) {
 	t := s.t
 	s.c.Step()
-	if s.pend != nil {
-		// one client call at a time on the engine: only a release can make progress
+	if len(s.pend) > 0 {
+		// Calls wait behind a blocked callback. Several may wait only if they are all updates: they queue
+		// on one channel, which Go serves first-in first-out, so the order stays the simulator's; calls of
+		// different kinds would meet in a select, whose choice is not steerable.
+		allUpdates := true
+		for _, cl := range s.pend {
+			if cl.kind != "update" {
+				allUpdates = false
+			}
+		}
+		if allUpdates && len(s.pend) < 3 && s.blocked() > 0 && t.Bool(1, 2) {
+			s.nextSer++
+			n := s.nextSer
+			src := fmt.Sprintf("$ +> (v: %d, k%d: %d)", n, n, n)
+			cl := &call{kind: "update", src: src, desc: "Update(" + src + ") [concurrent]", expr: s.compile(src), serial: n}
+			s.c.Logf("step %d: %s", i, cl.desc)
+			s.c.Probe("concurrent-updates-pending")
+			s.launch(cl, func() error { return s.e.Update(cl.expr) })
+			s.settle()
+			return
+		}
 		if !s.release() {
 			s.wedged(fmt.Sprintf("step %d", i))
 			return
@@ -385,6 +419,8 @@ func (s *sim) step(i int) {
 			src = fmt.Sprintf(kind, n)
 		case 2:
 			src = fmt.Sprintf(kind, n, n)
+		case 3:
+			src = fmt.Sprintf(kind, n, n, n)
 		}
 		cl := &call{kind: "update", src: src, desc: "Update(" + src + ")", expr: s.compile(src), serial: n}
 		s.c.Logf("step %d: %s", i, cl.desc)
@@ -419,14 +455,21 @@ func (s *sim) step(i int) {
 		s.c.Logf("step %d: %s", i, cl.desc)
 		s.launch(cl, func() error { s.e.Hangup(); return nil })
 	default:
-		if s.release() {
+		if s.blocked() > 0 && t.Bool(1, 4) {
+			// let simulated time pass while a callback is blocked: anything in the engine that waits on a
+			// timer (there is none on the pinned tree) fires now; the bubble's clock is the only clock
+			time.Sleep(3 * time.Second)
+			s.simSeconds += 3
+			s.c.Logf("step %d: clock +3s", i)
+			s.c.Probe("clock-advanced-while-callback-blocked")
+		} else if s.release() {
 			s.c.Logf("step %d: release", i)
 		}
 	}
 	s.settle()
-	if s.pend != nil && s.blocked() == 0 {
+	if len(s.pend) > 0 && s.blocked() == 0 {
 		s.wedged(fmt.Sprintf("step %d", i))
-	} else if s.pend != nil {
+	} else if len(s.pend) > 0 {
 		s.c.Probe("call-pending-behind-blocked-callback")
 	}
 }
@@ -450,9 +493,9 @@ func (s *sim) body() {
 		s.release()
 		s.settle()
 	}
-	if !s.c.Failed() && s.pend != nil {
+	if !s.c.Failed() && len(s.pend) > 0 {
 		s.settle()
-		if s.pend != nil {
+		if len(s.pend) > 0 {
 			s.wedged("after all releases")
 		}
 	}
@@ -465,10 +508,10 @@ func (s *sim) body() {
 		s.c.Logf("final: %s", cl.desc)
 		s.launch(cl, func() error { return s.e.Update(cl.expr) })
 		s.settle()
-		for guard := 0; guard < 50 && s.pend != nil && s.release(); guard++ {
+		for guard := 0; guard < 50 && len(s.pend) > 0 && s.release(); guard++ {
 			s.settle()
 		}
-		if !s.c.Failed() && s.pend != nil {
+		if !s.c.Failed() && len(s.pend) > 0 {
 			s.wedged("final update")
 		}
 	}
@@ -479,7 +522,7 @@ func (s *sim) body() {
 		cl := &call{kind: "stop", desc: "Stop"}
 		s.launch(cl, func() error { s.e.Stop(); return nil })
 		s.settle()
-		if s.pend != nil {
+		if len(s.pend) > 0 {
 			s.wedged("stop")
 		}
 	}
@@ -617,6 +660,9 @@ func Run(c *run.Ctx) {
 				c.Probe("porcupine-ok")
 			}
 		}
+	}
+	if s.simSeconds > 0 {
+		c.Res.Probes["simulated-seconds"] += s.simSeconds
 	}
 	nUpd, nObs := 0, 0
 	var kinds []string
